@@ -185,9 +185,11 @@ func (dr *DatabaseRecovery) calculateDelay(attempt int) time.Duration {
 		factor = 1
 	}
 
+	// The cap is returned as the configured duration itself: float64(MaxDelay) is inexact
+	// above 2^53 and, for caps near math.MaxInt64, too large to convert back to a Duration.
 	delay := base * math.Pow(factor, float64(attempt-1))
-	if delay > maxDelay {
-		delay = maxDelay
+	if delay >= maxDelay {
+		return dr.retryConfig.MaxDelay
 	}
 
 	return time.Duration(delay)
